@@ -18,8 +18,11 @@ struct Sub {
 Sub subgraph(NifFile& nif, uint32_t root, ContentIds& ids) {
 	auto& hdr = nif.GetHeader();
 	Sub r;
-	std::map<uint32_t, int> local;
+	// the sub-graph unfolded into a tree: a block that is referenced twice appears twice (a clone may hold a copy per
+	// reference); local numbers are positions in this breadth-first unfolding
+	std::map<uint32_t, int> local; // first position of a block (for weak pointers)
 	std::vector<uint32_t> order;
+	std::vector<std::vector<long long>> kidsOf;
 	if (root == NIF_NPOS || !hdr.GetBlock<NiObject>(root)) return r;
 	order.push_back(root);
 	local[root] = 0;
@@ -27,23 +30,25 @@ Sub subgraph(NifFile& nif, uint32_t root, ContentIds& ids) {
 		NiObject* b = hdr.GetBlock<NiObject>(order[i]);
 		std::vector<uint32_t> idx;
 		b->GetChildIndices(idx);
+		std::vector<long long> kids;
 		for (auto c : idx) {
-			if (c == NIF_NPOS) continue;
-			if (!hdr.GetBlock<NiObject>(c)) { r.dangling++; continue; }
-			if (!local.count(c)) {
-				local[c] = (int) order.size();
-				order.push_back(c);
-			}
+			if (c == NIF_NPOS) { kids.push_back(-1); continue; }
+			if (!hdr.GetBlock<NiObject>(c)) { r.dangling++; kids.push_back(-2); continue; }
+			if (order.size() >= 4000) { kids.push_back(-3); continue; }
+			if (!local.count(c)) local[c] = (int) order.size();
+			kids.push_back((long long) order.size());
+			order.push_back(c);
 		}
+		kidsOf.push_back(kids);
 	}
 	JArr a;
-	for (auto id : order) {
+	for (size_t oi = 0; oi < order.size(); oi++) {
+		uint32_t id = order[oi];
 		NiObject* b = hdr.GetBlock<NiObject>(id);
 		PutInfo pi = putBlock(b, hdr);
-		std::vector<uint32_t> idx;
-		b->GetChildIndices(idx);
 		JArr refs;
-		for (auto c : idx) refs.add(c == NIF_NPOS ? -1LL : (local.count(c) ? (long long) local[c] : -2LL));
+		if (oi < kidsOf.size())
+			for (auto c : kidsOf[oi]) refs.add(c);
 		// weak pointers: inside the sub-graph by local number, outside by the name of the node they designate
 		std::set<NiPtr*> ps;
 		b->GetPtrs(ps);
@@ -91,8 +96,8 @@ int cmdRun(int argc, char** argv) {
 	auto files = sampleFiles();
 	{ Out trunc(outPath); }
 	const char* dests[] = {"same", "fresh", "other", "partial-skeleton", "skeleton-root-node", "model-space-flag", "empty-bone-slot", "parent-stored-later",
-						   "strips-shape", "special-bones"};
-	const size_t ND = 10;
+						   "strips-shape", "special-bones", "shared-child"};
+	const size_t ND = 11;
 	size_t crashes = runForkedCases(
 		files.size() * ND, outPath, 300,
 		[&](size_t i, std::string& out) {
@@ -203,6 +208,19 @@ int cmdRun(int argc, char** argv) {
 					src.CopyFrom(re);
 					other.Create(src.GetHeader().GetVersion());
 					dst = &other;
+				}
+				else if (destName == "shared-child") {
+					// one block referenced twice below the shape (the same extra data listed twice); a fresh model, or the same one
+					NiShape* sh = byName(src, shapeName);
+					if (!sh) continue;
+					auto ed = std::make_unique<NiStringExtraData>();
+					ed->name.get() = "shared";
+					ed->stringData.get() = "listed twice";
+					uint32_t id = src.GetHeader().AddBlock(std::move(ed));
+					sh->extraDataRefs.AddBlockRef(id);
+					sh->extraDataRefs.AddBlockRef(id);
+					other.Create(src.GetHeader().GetVersion());
+					dst = (i / ND) % 2 ? &src : &other;
 				}
 				else if (destName == "model-space-flag") {
 					// Fallout 4 and later: a shader flagged for model-space normals on a shape that carries normals (in the
